@@ -233,8 +233,11 @@ class Verifier:
 
         def run_path(it, ctx, res):
             bound = {}
+            joint = c.fresh_params(ctx, it) if c.fresh_params is not None else {}
             for pname, p in sig.parameters.items():
-                if pname in c.params:
+                if pname in joint:
+                    bound[pname] = joint[pname]
+                elif pname in c.params:
                     bound[pname] = c.params[pname].fresh(ctx, pname)
                 elif pname == 'self' and cc is not None and cc.shape is not None:
                     if c.is_init:
@@ -246,6 +249,9 @@ class Verifier:
                 else:
                     raise EngineError(f'{c.qualname}: no shape for parameter {pname}')
             ns = dict(bound)
+            for gk, gv in joint.items():
+                if gk.startswith('ghost_'):
+                    ns[gk] = gv
             if c.split:
                 sv = bound[c.split]
                 if V.is_card(sv) and isinstance(sv, SObj):
@@ -267,6 +273,9 @@ class Verifier:
             ns['old'] = old
             ns_old = dict(old.fields)
             ns_old['old'] = old
+            for gk, gv in joint.items():
+                if gk.startswith('ghost_'):
+                    ns_old[gk] = gv
             outcome = None
             try:
                 result = it.run_body(c.fn, dict(bound))
